@@ -197,7 +197,7 @@ def check(run):
     run.cov["rule"] = ("every operation (Table.Scan, Index.Scan, ScanMin, ScanEq, Table.Rowid, Select, SelectRowid, PKSelect, IndexedSelect, IndexedSelectEq) on every tree of a "
                        "SQLite-written corpus incl. overflowing index keys: the k-th physical page read of the call fails, for every k up to the fault-free read count (sampled above 40), "
                        "as an I/O error and as a short read; verdict = the property itself: an error is returned, the rows delivered are a prefix of the fault-free rows, the lock is "
-                       "released. Plus: single pages that always fail, extracted Coq model vs implementation. non-trivial = distinct (operation, k, kind) injections")
+                       "released. Plus: single pages that always fail, extracted Coq model vs implementation. non-trivial = distinct (operation, k, kind) injections After an injected fault the same call is repeated on the same handle (sampled): succeeding with other rows than the fault-free run is a violation.")
     run.cov["distribution"] = dict(dist, corpus=dbgen.describe(dbs))
     for cid in list(meta)[:3]:
         run.sample({"command": meta[cid][1][-100:], "fail_read": meta[cid][3], "short": bool(meta[cid][4]), "impl_tail": (impl.get(cid) or [])[-2:]})
